@@ -309,3 +309,22 @@ pub fn fq_special() -> BoxedStrategy<Num> {
     ]
     .boxed()
 }
+
+/// values whose *Montgomery representation* (R = 2^(64*limbs)) has at most two non-zero 32-bit
+/// limbs: (a*2^(32i) + b*2^(32j)) * R^-1 mod m. Limb-selective slips in the generated field code
+/// (a dropped carry, a limb left out of a comparison) only show on such values.
+pub fn mont_sparse(m: &N) -> BoxedStrategy<Num> {
+    let m = m.clone();
+    let nlimbs = ((m.bits() + 63) / 64) as usize;
+    let rinv = {
+        let r = (N::one() << (64 * nlimbs)) % &m;
+        r.modpow(&(&m - 2u32), &m)
+    };
+    (0usize..nlimbs * 2, 0usize..nlimbs * 2, prop_oneof![Just(1u32), Just(2u32), Just(6u32), Just(u32::MAX), Just(0x8000_0000u32), any::<u32>()], prop_oneof![4 => Just(0u32), 1 => Just(1u32), 1 => Just(u32::MAX), 1 => any::<u32>()], any::<bool>())
+        .prop_map(move |(i, j, a, b, neg)| {
+            let d = ((N::from(a) << (32 * i)) + (N::from(b) << (32 * j))) % &m;
+            let v = (d * &rinv) % &m;
+            Num(if neg { (&m - &v) % &m } else { v })
+        })
+        .boxed()
+}
